@@ -33,7 +33,7 @@ class C20(core.Check):
         n = 260 if self.tier == 'quick' else 5000
         shapes = {}
         for _ in range(n):
-            kind = rng.choice(['single', 'text-elem-text', 'several', 'several-ws', 'text-only', 'ws-around'])
+            kind = rng.choice(['single', 'text-elem-text', 'several', 'several-ws', 'text-only', 'ws-around', 'elem-text', 'elem-text-elem', 'text-elem'])
             t1 = c01.gen_tree(rng, maxdepth=2, budget=[5])
             t2 = c01.gen_tree(rng, maxdepth=1, budget=[3])
             if kind == 'single':
@@ -44,6 +44,12 @@ class C20(core.Check):
                 toks = c01.tree_tokens(t1) + c01.tree_tokens(t2)
             elif kind == 'several-ws':
                 toks = c01.tree_tokens(t1) + [['T', rng.choice([' ', '\n', '  \n'])]] + c01.tree_tokens(t2)
+            elif kind == 'elem-text':
+                toks = c01.tree_tokens(t1) + [['T', rng.choice([' tail', 'after', 'x', '&amp;', '<!--c-->', ' trailing text\n'])]]
+            elif kind == 'text-elem':
+                toks = [['T', rng.choice(['lead ', 'x', '&amp;', '<!--c-->'])]] + c01.tree_tokens(t1)
+            elif kind == 'elem-text-elem':
+                toks = c01.tree_tokens(t1) + [['T', rng.choice(['tail', ' mid ', '&#65;'])]] + c01.tree_tokens(t2)
             elif kind == 'text-only':
                 toks = [['T', rng.choice(['just text', 'a &amp; b', 'x', ' world', 'trail \n', '  both  '])]]
             else:
